@@ -421,15 +421,22 @@ func updateResOne(res Resolver, rel UniRel) []UniRel {
 	}
 }
 
-func updateResolver(res Resolver, rels []UniRel) Resolver {
+func updateResolverN(count int, res Resolver, rels []UniRel) Resolver {
+	frt.IfOnly((count > 1000), (func() {
+		PanicNow("Type inference does not converge, maybe recursive type.")
+	}))
 	nrels := frt.Pipe(frt.Pipe(rels, (func(_r0 []UniRel) [][]UniRel {
 		return slice.Map((func(_r0 UniRel) []UniRel { return updateResOne(res, _r0) }), _r0)
 	})), slice.Concat)
 	return frt.IfElse(slice.IsEmpty(nrels), (func() Resolver {
 		return res
 	}), (func() Resolver {
-		return updateResolver(res, nrels)
+		return updateResolverN((count + 1), res, nrels)
 	}))
+}
+
+func updateResolver(res Resolver, rels []UniRel) Resolver {
+	return updateResolverN(0, res, rels)
 }
 
 func transTypeLfd(transTV func(TypeVar) FType, lfd LetFuncDef) LetFuncDef {
